@@ -6,6 +6,8 @@ import AnonModel.Driver.OpsQuery
 import AnonModel.Driver.OpsStatusList
 import AnonModel.Driver.OpsVerify
 import AnonModel.Driver.OpsProver
+import AnonModel.Driver.OpsStore
+import AnonModel.Driver.OpsTails
 import AnonModel.Model.Ident
 /-! Dispatch of line-protocol operations to model functions. -/
 open Lean
@@ -52,6 +54,12 @@ def step (j : Json) : Json :=
     | some r => r
     | none =>
     match stepProver op j with
+    | some r => r
+    | none =>
+    match stepStore op j with
+    | some r => r
+    | none =>
+    match stepTails op j with
     | some r => r
     | none => badOp
 
